@@ -2,7 +2,7 @@ from dataclasses import dataclass
 
 from mypy.nodes import ConditionalExpr
 
-from refurb.checks.common import is_equivalent, stringify
+from refurb.checks.common import is_equivalent, stringify_operand
 from refurb.error import Error
 
 
@@ -34,8 +34,8 @@ class ErrorInfo(Error):
 
 def check(node: ConditionalExpr, errors: list[Error]) -> None:
     if is_equivalent(node.if_expr, node.cond):
-        if_true = stringify(node.if_expr)
-        if_false = stringify(node.else_expr)
+        if_true = stringify_operand(node.if_expr, "or")
+        if_false = stringify_operand(node.else_expr, "or")
 
         old = f"{if_true} if {if_true} else {if_false}"
         new = f"{if_true} or {if_false}"
